@@ -386,3 +386,112 @@ func VerifPoolAudit(n int) (dirty [4]int) {
 	}
 	return dirty
 }
+
+// ---- pool control (C12): the environment's choices made explicit ----
+
+// VerifPooled is one node taken out of a real pool.
+type VerifPooled struct {
+	kind nodeKind
+	obj  any
+	// Zero reports whether the node was in the all-zero state when drained.
+	Zero bool
+	// Image is a printable image of the non-zero content ("" when Zero).
+	Image string
+}
+
+// VerifPoolDrain removes every node from the four real sync.Pools (for the
+// calling P; meant for GOMAXPROCS(1) with the collector off) and returns them
+// in the order Get handed them out.
+func VerifPoolDrain() (out [4][]VerifPooled) {
+	for k := nodeKind4; k < nodeKindLeaf; k++ {
+		saved := nodePools[k].New
+		nodePools[k].New = nil
+		for {
+			o := nodePools[k].Get()
+			if o == nil {
+				break
+			}
+			p := VerifPooled{kind: k, obj: o}
+			switch n := o.(type) {
+			case *node4:
+				p.Zero = *n == node4{}
+				if !p.Zero {
+					p.Image = verifImage(nodeRef{pointer: unsafe.Pointer(n), tag: nodeKind4})
+				}
+			case *node16:
+				p.Zero = *n == node16{}
+				if !p.Zero {
+					p.Image = verifImage(nodeRef{pointer: unsafe.Pointer(n), tag: nodeKind16})
+				}
+			case *node48:
+				p.Zero = *n == node48{}
+				if !p.Zero {
+					p.Image = verifImage(nodeRef{pointer: unsafe.Pointer(n), tag: nodeKind48})
+				}
+			case *node256:
+				p.Zero = *n == node256{}
+				if !p.Zero {
+					p.Image = verifImage(nodeRef{pointer: unsafe.Pointer(n), tag: nodeKind256})
+				}
+			}
+			out[k] = append(out[k], p)
+		}
+		nodePools[k].New = saved
+	}
+	return out
+}
+
+// verifImage renders the header, key lanes and the occupancy of the child
+// slots of a pooled node (children are not followed: they may be stale).
+func verifImage(ref nodeRef) string {
+	n := ref.node()
+	img := []byte{byte(ref.tag), n.childrenLen, byte(n.prefixLen), byte(n.prefixLen >> 8)}
+	img = append(img, n.prefix[:]...)
+	occ := func(c []nodeRef) {
+		for i := range c {
+			if c[i].pointer != nil {
+				img = append(img, 1)
+			} else {
+				img = append(img, 0)
+			}
+		}
+	}
+	switch ref.tag {
+	case nodeKind4:
+		n4 := (*node4)(ref.pointer)
+		img = append(img, deconstruct(n4.keys)...)
+		occ(n4.children[:])
+	case nodeKind16:
+		n16 := (*node16)(ref.pointer)
+		img = append(img, n16.keys[:]...)
+		occ(n16.children[:])
+	case nodeKind48:
+		n48 := (*node48)(ref.pointer)
+		img = append(img, n48.keys[:]...)
+		occ(n48.children[:])
+	case nodeKind256:
+		occ((*node256)(ref.pointer).children[:])
+	}
+	const hex = "0123456789abcdef"
+	s := make([]byte, 0, 2*len(img))
+	for _, b := range img {
+		s = append(s, hex[b>>4], hex[b&15])
+	}
+	return string(s)
+}
+
+// VerifPoolRefill puts nodes back so that later Gets return them in the given
+// order (single P: the first Put lands in the private slot, later ones are
+// popped most-recent-first).
+func VerifPoolRefill(in [4][]VerifPooled) {
+	for k := range in {
+		l := in[k]
+		if len(l) == 0 {
+			continue
+		}
+		nodePools[k].Put(l[0].obj)
+		for i := len(l) - 1; i >= 1; i-- {
+			nodePools[k].Put(l[i].obj)
+		}
+	}
+}
